@@ -36,7 +36,10 @@ Elements(r, dest) == IF dest = "face" THEN r.mesh ELSE r.edges
 EdgeTableSane(r) == \A k \in 1..Len(r.edges) :
                        Len(r.edges[k]) = 2 /\ \A j \in 1..2 : r.edges[k][j] \in 0..(r.n_node - 1)
 
+\* a non-finite expectation <<sentinel, 0>> must be met by the same sentinel (NaN where NaN is due, the infinity
+\* with its sign), a finite one by the same rational
 Match(op, got, exp) ==
+    IF exp[2] = 0 THEN got[2] = 0 /\ got[1] = exp[1] ELSE
     /\ got[2] > 0
     /\ got[1] * exp[2] = exp[1] * got[2]
     /\ Bit(got[3], 1)
@@ -58,7 +61,7 @@ ValueOK(r, dest, op) ==
          /\ Len(e.flat) = Len(r.rows) * n
          /\ \A row \in 1..Len(r.rows) : \A k \in 1..n :
               LET o == FlatOffset(l, n, row - 1, k - 1) + 1
-              IN o <= Len(e.flat) => Match(op, e.flat[o], Reduce(op, Gather(els[k], r.rows[row]), r.den))
+              IN o <= Len(e.flat) => Match(op, e.flat[o], ReduceX(op, Gather(els[k], r.rows[row]), r.den))
 
 \* the destination dimension takes the place (position) of the node dimension, the other dimensions keep theirs
 DimsOK(r, dest, op) ==
